@@ -776,15 +776,12 @@ Qed.
 Lemma narrow_bits_spec k x : narrow_bits k (wrap 64 x) = wrap 64 (go_conv k x).
 Proof.
   unfold go_conv. destruct k; cbn [narrow_bits ksigned kbits];
-    rewrite ?wrap_wrap64 by (unfold wf_w; auto); try reflexivity.
-  - (* int64 *) symmetry. apply wrap_sgn; [apply wf64|apply wrap_range; lia].
-  - (* int *) symmetry. apply wrap_sgn; [apply wf64|apply wrap_range; lia].
-  - (* uint8 *) symmetry. apply wrap_small. pose proof (wrap_range 8 x ltac:(lia)). unfold in_range in *. norm_pow. lia.
-  - symmetry. apply wrap_small. pose proof (wrap_range 16 x ltac:(lia)). unfold in_range in *. norm_pow. lia.
-  - symmetry. apply wrap_small. pose proof (wrap_range 32 x ltac:(lia)). unfold in_range in *. norm_pow. lia.
-  - symmetry. apply wrap_wrap.
-  - symmetry. apply wrap_wrap.
-  - symmetry. apply wrap_wrap.
+    rewrite ?wrap_wrap64 by (unfold wf_w; auto); try reflexivity; symmetry;
+    first [ apply wrap_wrap
+          | apply wrap_sgn; [apply wf64|apply wrap_range; lia]
+          | apply wrap_small;
+            match goal with |- in_range _ (wrap ?w ?y) => pose proof (wrap_range w y ltac:(lia)) end;
+            unfold in_range in *; norm_pow; lia ].
 Qed.
 
 Lemma go_conv_range k x : krange k (go_conv k x).
@@ -907,3 +904,23 @@ Section FloatProofs.
     - assert (2 ^ 24 <= 2 ^ 53) by (norm_pow; lia). lia.
   Qed.
 End FloatProofs.
+
+Lemma set_get_both k x : set_read k x = Some (go_conv k x) /\ (krange k x -> set_read k x = Some x).
+Proof. split; [exact (set_get k x)|]. intros H. rewrite set_get. now rewrite (go_conv_id k x H). Qed.
+
+Lemma int_float_int_both :
+  forall (f32 f64 : Type) (widen : f32 -> f64) (narrow : f64 -> f32) (of_int : Z -> f64) (to_int : f64 -> Z),
+  (forall n, Z.abs n <= 2 ^ 53 -> to_int (of_int n) = n) ->
+  (forall n, Z.abs n <= 2 ^ 24 -> widen (narrow (of_int n)) = of_int n) ->
+  forall src dst indir x, krange src x ->
+  (Z.abs x <= 2 ^ 53 ->
+   value_read (cvt_float_int f32 f64 widen to_int true
+                 (cvt_int_float f32 f64 narrow of_int (ival_of src indir x) KFloat64) dst) = go_conv dst x) /\
+  (Z.abs x <= 2 ^ 24 ->
+   value_read (cvt_float_int f32 f64 widen to_int true
+                 (cvt_int_float f32 f64 narrow of_int (ival_of src indir x) KFloat32) dst) = go_conv dst x).
+Proof.
+  intros f32 f64 widen narrow of_int to_int H53 H24 src dst indir x H. split; intros Hx.
+  - exact (int_float64_int f32 f64 widen narrow of_int to_int H53 src dst indir x H Hx).
+  - exact (int_float32_int f32 f64 widen narrow of_int to_int H53 H24 src dst indir x H Hx).
+Qed.
